@@ -36,7 +36,7 @@ class Suite(object):
     compositions = []
 
     def __init__(self):
-        pass
+        self.compositions = []
 
     def add_composition(self, composition):
         """Add a composition to the suite.
